@@ -549,3 +549,95 @@ def xy_suite(tier, seed, algo="XY"):
         out.append(mesh(rng, m, n, algo, rng.random() < 0.25, sides=sides, partial=part, side_role=roles,
                         cluster_role=rng.choice(["ms", "m", "s"]), side_nranges=rng.choice([1, 2])))
     return [(d, t) for d, t in out if d is not None]
+
+
+# ---------------------------------------------------------------------------------------------- selectors (C06)
+def selector_suite(tier, seed):
+    """connection selectors: idx, ascending / descending / single / partial ranges, tree level, none;
+    multi-connection 1:k and k:1; 1-D and 2-D endpoint arrays against 2-D router arrays; trees <= 3 levels"""
+    rng = random.Random(seed + 41)
+    out = []
+
+    def orient(lo, hi):
+        return [lo, hi] if rng.random() < 0.6 else [hi, lo]
+
+    reps = 12 if tier == "quick" else 120
+    for algo in ("ID", "SRC"):
+        for _ in range(reps):
+            nw = rng.random() < 0.25
+            m, n = rng.randint(1, 3 if tier == "quick" else 4), rng.randint(1, 3 if tier == "quick" else 4)
+            d = header("sel", nw, algo)
+            alloc = Alloc(rng)
+            eps, conns = [], []
+            eps.append(mk_ep("grid", "ms", nw, rng, alloc, array=[m, n]))
+            conns.append({"src": "grid", "dst": "router", "src_range": [orient(0, m - 1), orient(0, n - 1)],
+                          "dst_range": [orient(0, m - 1), orient(0, n - 1)]})
+            if rng.random() < 0.7:
+                i = rng.randrange(m)
+                eps.append(mk_ep("col", rng.choice(["s", "ms", "m"]), nw, rng, alloc, array=[n]))
+                c = {"src": "col", "dst": "router", "src_range": [orient(0, n - 1)], "dst_range": [[i, i], orient(0, n - 1)]}
+                if rng.random() < 0.5:
+                    c = {"src": "router", "dst": "col", "dst_range": c["src_range"], "src_range": c["dst_range"]}
+                conns.append(c)
+            if rng.random() < 0.7 and m >= 2:
+                j = rng.randrange(n)
+                lo = rng.randrange(m - 1)
+                hi = rng.randrange(lo, m)
+                cnt = hi - lo + 1
+                eps.append(mk_ep("part", rng.choice(["s", "ms"]), nw, rng, alloc, array=[cnt]))
+                conns.append({"src": "part", "dst": "router", "src_range": [orient(0, cnt - 1)],
+                              "dst_range": [orient(lo, hi), [j, j]]})
+            if rng.random() < 0.7:
+                eps.append(mk_ep("solo", rng.choice(["s", "ms", "m"]), nw, rng, alloc))
+                i, j = rng.randrange(m), rng.randrange(n)
+                conns.append(rng.choice([{"src": "solo", "dst": "router", "dst_idx": [i, j]},
+                                         {"src": "router", "dst": "solo", "src_idx": [i, j]}]))
+            if rng.random() < 0.6:
+                k = rng.choice([2, 3])
+                eps.append(mk_ep("many", rng.choice(["s", "ms"]), nw, rng, alloc, array=[k * m]))
+                conns.append({"src": "many", "dst": "router", "src_range": [[0, k * m - 1]],
+                              "dst_range": [[0, m - 1], [0, 0]], "allow_multi": True})
+            if rng.random() < 0.5:
+                k = rng.choice([2, 3])
+                eps.append(mk_ep("fan", rng.choice(["s", "ms", "m"]), nw, rng, alloc, array=[k]))
+                i, j = rng.randrange(m), rng.randrange(n)
+                conns.append({"src": "router", "dst": "fan", "src_idx": [i, j], "dst_range": [[0, k - 1]],
+                              "allow_multi": True})
+            if rng.random() < 0.6 and m >= 2:
+                k = rng.choice([2, 3])
+                j = rng.randrange(n)
+                eps.append(mk_ep("spread", rng.choice(["s", "ms"]), nw, rng, alloc, array=[k * m]))
+                conns.append({"src": "router", "dst": "spread", "src_range": [orient(0, m - 1), [j, j]],
+                              "dst_range": [[0, k * m - 1]], "allow_multi": True})
+            rng.shuffle(conns)
+            d["endpoints"], d["connections"] = eps, conns
+            d["routers"] = [{"name": "router", "array": [m, n], "degree": 14}]
+            out.append((d, {"topo": "selectors", "m": m, "n": n, "conns": len(conns)}))
+        # trees
+        for levels in ([(1, 2), (1, 2, 2), (1, 3), (1, 1, 2)] if tier == "quick" else
+                       [(1,) + t for dpt in (1, 2) for t in itertools.product((1, 2, 3), repeat=dpt)]):
+            nw = rng.random() < 0.25
+            d = header("seltree", nw, algo)
+            alloc = Alloc(rng)
+            depth = len(levels)
+            cnt = 1
+            for x in levels:
+                cnt *= x
+            k = rng.choice([1, 2])
+            eps = [mk_ep("leaf", "ms", nw, rng, alloc, array=[cnt * k])]
+            conns = [{"src": "leaf", "dst": "router", "src_range": [orient(0, cnt * k - 1)], "dst_lvl": depth - 1,
+                      "allow_multi": True}]
+            if cnt >= 2:
+                eps.append(mk_ep("down", rng.choice(["s", "ms"]), nw, rng, alloc, array=[cnt * 2]))
+                conns.append({"src": "router", "dst": "down", "src_lvl": depth - 1, "dst_range": [[0, cnt * 2 - 1]],
+                              "allow_multi": True})
+            eps.append(mk_ep("root", rng.choice(["s", "ms", "m"]), nw, rng, alloc))
+            conns.append(rng.choice([{"src": "router", "dst": "root", "src_lvl": 0},
+                                     {"src": "root", "dst": "router", "dst_idx": [0]}]))
+            if depth >= 2:
+                eps.append(mk_ep("mid", rng.choice(["s", "ms"]), nw, rng, alloc))
+                conns.append({"src": "mid", "dst": "router", "dst_idx": [0, rng.randrange(levels[1])]})
+            d["endpoints"], d["connections"] = eps, conns
+            d["routers"] = [{"name": "router", "tree": list(levels)}]
+            out.append((d, {"topo": "seltree", "levels": list(levels)}))
+    return out
